@@ -57,8 +57,28 @@ def build(tree, fac, leaves):
     if tree["t"] == "add":
         left = build(tree["l"], fac, leaves)
         right = build(tree["r"], fac, leaves)
-        return left + right
-    return build(tree["a"], fac, leaves) * tree["n"]
+        before = (_elems(left), _elems(right))
+        res = left + right
+        if (_elems(left), _elems(right)) != before:
+            raise OperandMutated(f"evaluating ({show(tree['l'])}) + ({show(tree['r'])}) changed the elements of one of its operands")
+        return res
+    sub = build(tree["a"], fac, leaves)
+    before = _elems(sub)
+    res = sub * tree["n"]
+    if _elems(sub) != before:
+        raise OperandMutated(f"evaluating ({show(tree['a'])}) * {tree['n']} changed the elements of its operand")
+    return res
+
+
+class OperandMutated(Exception):
+    """a + b / a * n build a NEW composite: an operand that is used again elsewhere must still be what it was"""
+
+
+def _elems(x):
+    for attr in ("moves", "operations"):
+        if hasattr(x, attr):
+            return [id(e) for e in getattr(x, attr)]
+    return None
 
 
 def show(tree):
@@ -124,6 +144,9 @@ def run(tier: str) -> int:
                     rep.sample({"tree": key, "expected_type": meaning["type"], "expected_elems": [e[0] for e in meaning["elems"]]})
                 try:
                     res = build(tree, fac, leaves)
+                except OperandMutated as ex:
+                    rep.violation(f"operand-mutated:{domain}:{shape(tree)}", f"{ex} (in {key})", {"tree": tree, "expr": key})
+                    continue
                 except Exception as ex:  # noqa: BLE001
                     rep.violation(f"raise:{domain}:{shape(tree)}:{type(ex).__name__}", f"building {key} raised {type(ex).__name__}: {ex}", {"tree": tree, "expr": key})
                     continue
